@@ -111,11 +111,17 @@ class Gen:
             sset = r.choice([1, 2, 3, 3, 4, 4, 4, 5, 6, 6, 6, 7, 8, 0])
             evs = SENDER_SETS[sset]
             params.append('N%d %d %s' % (sset, len(evs), ' '.join(evs)) if evs else 'N0 0')
+            if r.random() < 0.12:
+                # a second Sender parameter with another event set (legal: the queue access is never rejected)
+                s2 = r.choice([x for x in (1, 2, 3, 4, 5, 7, 8) if x != sset])
+                ev2 = SENDER_SETS[s2]
+                params.append('N%d %d %s' % (s2, len(ev2), ' '.join(ev2)))
+                evs = evs + [e for e in ev2 if e not in evs]
+                self.count('handler_two_senders')
         r.shuffle(params) if r.random() < 0.3 else None
         # script
         acts = []
         if sset is not None:
-            evs = SENDER_SETS[sset]
             for _ in range(r.choice([0, 1, 1, 2, 2, 3])):
                 if evs and r.random() < 0.96:
                     acts.append(self.action_for(r.choice(evs)))
@@ -154,6 +160,50 @@ class Gen:
         prio = r.choice(['H', 'M', 'M', 'M', 'L'])
         self.count('handler_chain')
         return 'addh %s - %d %d %d %d %s %d %s' % (prio, take, evd, r.choice([0, 0, 2]), len(params), ' '.join(params), len(acts), ' '.join(acts))
+
+    def scenes(self):
+        """Short scripted openings (randomised) for situations that uniform op mixes reach too rarely: index recycling
+        after a component type is removed, a registration in the middle of add_handler, and a Remove directly followed
+        by an Insert of the same component with a listener that only matches entities lacking it."""
+        r = self.r
+        ops = []
+        for _ in range(r.choice([1, 1, 2])):
+            kind = r.choice(['recycle', 'recycle', 'midreg', 'rm_in'])
+            self.count('scene_' + kind)
+            if kind == 'recycle':
+                c1, c2, c3 = r.sample([0, 1, 2, 3, 4, 5], 3)
+                c4 = r.choice([c3, c3, r.choice([6, 7])])
+                base = sum(1 for o in ops if o == 'spawn')
+                nc = sum(1 for o in ops if o.startswith('addc '))
+                ops += ['spawn', 'spawn', 'spawn', 'addc %d' % c1, 'addc %d' % c2, 'addc %d' % c3,
+                        'insert %d %d' % (base + 1, c1), 'insert %d %d' % (base + 1, c2)]
+                if r.random() < 0.3: ops.append('insert %d %d' % (base + 2, c2))
+                ops += ['insert %d %d' % (base, c3), 'rmc %d' % (nc + 2)]
+                if r.random() < 0.8: ops.append('remove %d %d' % (base + 1, c1))
+                if r.random() < 0.2: ops.append('insert %d %d' % (base + 2, c1))
+                ops += ['addc %d' % c4, 'spawn', 'insert %d %d' % (base + 3, c4)]
+                if r.random() < 0.5: ops.append('insert %d %d' % (base, c4))
+            elif kind == 'midreg':
+                # a listener of AddComponent that creates / changes entities, then a handler whose LATER parameter
+                # registers a component type that is not registered yet
+                a = r.choice([0, 1, 2])
+                acts = r.choice([['sp', 'inF0:%d' % a], ['inK0:%d' % a], ['sp', 'inF0:%d' % a, 'inK0:%d' % a]])
+                ops += ['spawn', 'addc %d' % a]
+                ops.append('addh %s - 0 0 0 2 G11r N6 12 %s %d %s' % (r.choice('HML'), ' '.join(SENDER_SETS[6]), len(acts), ' '.join(acts)))
+                late = r.choice(['| r8 r9', 't2 m8 r9', 't3 r0 r8 r9'])
+                first = r.choice(['F r%d' % a, 'Y r%d' % a, 'S r%d' % a, 'F t2 e r%d' % a]) if a == 0 else 'F r%d' % a
+                ops.append('addh M - 0 0 %d 3 G0r %s F %s 0 ' % (r.choice([0, 2]), first, late))
+                ops += ['send 0']
+            else:
+                c = 0          # the targeted-receiver query '! r0' is the one the harness instantiates
+                base = sum(1 for o in ops if o == 'spawn')
+                ops += ['spawn', 'insert %d %d' % (base, c)]
+                ops.append('addh M - 0 0 0 2 T0r t0 N4 6 %s 2 rmT:%d inT:%d' % (' '.join(SENDER_SETS[4]), c, c))
+                ops.append('addh %s - %d 0 0 1 T%dm ! r%d 0 ' % (r.choice('HML'), r.choice([1, 1, 0]), 20 + c, c))
+                if r.random() < 0.4:
+                    ops.append('addh M - 0 0 0 1 T%dr r%d 0 ' % (40 + c, c))
+                ops += ['sendto %d 0' % base]
+        return ops
 
     def history(self, n_ops):
         r = self.r
@@ -200,6 +250,8 @@ class Gen:
                 ops += ['insert %d %d' % (e, k) for k in order]
             ops += ['addh M - 0 0 %d 2 G0r F %s 0 ' % (r.choice([0, 2]), q) for q in r.sample(['t3 r0 r8 r9', 't2 m8 r9', 't2 e m9', '| r8 r9', 't2 o r8 w r9'], 3)]
             ops += ['send 0']
+        if self.profile == 'scenes':
+            ops += self.scenes()
         if self.profile == 'registry':
             ops += ['spawn', 'spawn', 'insert 0 0', 'insert 1 1'] + [self.notify_handler() for _ in range(r.randrange(1, 4))]
         for _ in range(n_ops):
@@ -227,7 +279,7 @@ class Gen:
         ops.append('drop')
         return ops
 
-def write_histories(path, seed, n_hist, n_ops, profiles=('mixed', 'structural', 'events', 'panics', 'chains', 'registry', 'cascade', 'wide')):
+def write_histories(path, seed, n_hist, n_ops, profiles=('mixed', 'structural', 'events', 'panics', 'chains', 'registry', 'cascade', 'wide', 'scenes')):
     g = None
     hists = []
     stats = {}
